@@ -150,6 +150,13 @@ pub fn run(cfg: &Cfg, rep: &mut Report) {
   // thread part: an emitting thread races the unsubscribing thread (baton scheduler)
   let n = cfg.n(6_000, 600_000);
   let fams = [0usize, 2, 3, 4, 5, 6, 7, 8, 9, 11, 12, 13];
+  super::thr::systematic_families(cfg, rep, 0xC02A, &fams, &|s, r| {
+    if !s.threads.iter().flatten().any(|op| matches!(op, super::thr::TOp::Unsub(0))) {
+      let t = r.below(s.threads.len());
+      let p = r.below(s.threads[t].len() + 1);
+      s.threads[t].insert(p, super::thr::TOp::Unsub(0));
+    }
+  }, &|o, _| super::thr::after_unsub(o));
   super::thr::campaign(cfg, rep, "thr", n, 0xC02F, &mut |r: &mut Rng| {
     let f = fams[r.below(fams.len())];
     let mut s = super::thr::random_scen(r, f);
